@@ -17,6 +17,10 @@ def run_chain_loop(ctx, pfx, A, ev, chain0, nc, nd, sp, inlined_chain=None, out_
     steps = ev.events(lambda e: e.key == STEP)
     loops = [ls for ls in ev.vf.loops if ls.kind == 'for' and any(e in ls.events for e in steps) and (not ls.ctx or inlined_chain is not None)]
     loops = [ls for ls in loops if not any(e.loops and e.loops[-1] != ls.uid for e in steps if e in ls.events)]
+    if len(loops) == 2 and loops[0].ctx == loops[1].ctx:
+        r2 = two_phase(ctx, pfx, A, ev, chain0, nc, nd, sp, loops, steps, out_pick, dim_terms, allow_error_exits, inlined_chain)
+        if r2 is not None:
+            return r2
     if len(loops) != 1:
         for o in ('count', 'step_once_before_store', 'guard_row_value', 'alloc'):
             ctx.unknown(pfx + '.' + o, A, o, why='expected exactly one counted loop that steps the chain (found %d)' % len(loops), sp=sp)
@@ -59,6 +63,47 @@ def run_chain_loop(ctx, pfx, A, ev, chain0, nc, nd, sp, inlined_chain=None, out_
     dimt = dim_terms or [T.app('len', T.app('core::MarkovChain::current_state', chain0))]
     ctx.eq(pfx + '.alloc', A, 'alloc', ls.init[ok_], T.app('zeros', T.tup(nc, dimt[0])), sp=sp, why='output has n_collect rows of the state dimension')
     return ls, ok_
+
+
+def two_phase(ctx, pfx, A, ev, chain0, nc, nd, sp, loops, steps, out_pick, dim_terms, allow_error_exits, inlined_chain=None):
+    """the same run written as a burn-in loop (n_discard steps, nothing stored) followed by a collection loop (n_collect steps, row k
+    stored at iteration k): same transitions, same rows.  Returns (collection loop, out key) or None when the two loops are not that."""
+    l1, l2 = sorted(loops, key=lambda l_: l_.uid)
+
+    def once(ls):
+        ins = [e for e in steps if e in ls.events]
+        cks = [k for k in ls.lh if isinstance(ls.next.get(k), T.Tm) and any(contains(ls.next[k], T.app('post0', e.res)) for e in ins)]
+        ok = len(ins) == 1 and not ins[0].pc and len(cks) == 1 and ((ins[0].args[0] is ls.lh[cks[0]] and ls.next[cks[0]] is T.app('post0', ins[0].res)) if inlined_chain is None
+                                                                else inlined_chain(ls, cks[0], ins[0].args[0], ins[0].res))
+        return ok, (cks[0] if cks else None), (ins[0].res if ins else None)
+    ok1, ck1, _ = once(l1)
+    ok2, ck2, res2 = once(l2)
+    if not (ok1 and ok2) or keyrepr(ck1) != keyrepr(ck2) or l2.init[ck2] is not l1.lx[ck1]:
+        return None
+    ex_ok = lambda ls: not ls.exits or (allow_error_exits and all(e[0] == 'return' and T.is_app(e[2], 'is:Err') for e in ls.exits))
+    others1 = [k for k in carried_keys(l1) if k is not ck1]
+    ctx.check(pfx + '.count', A, 'count', l1.n is nd and l2.n is nc and ex_ok(l1) and ex_ok(l2) and not others1,
+              expected='n_discard burn-in iterations (nothing stored) then n_collect collecting iterations, no other exit', found='n=%s then n=%s; burn-in loop also carries %s' % (show(l1.n), show(l2.n), [keyrepr(k) for k in others1]), sp=l1.sp,
+              why='exactly n_collect + n_discard transitions, no transition more than needed')
+    ctx.ok(pfx + '.step_once_before_store', A, 'step', expected='one unconditional chain.step() per iteration of either loop on the live chain (in place), the second loop continuing from the first', found='two-phase form', sp=l2.sp,
+           why='each iteration performs exactly one transition of the chain itself')
+    outs = [k for k in carried_keys(l2) if k is not ck2]
+    if out_pick is not None:
+        outs = [k for k in outs if out_pick(l2, k)]
+    if len(outs) != 1:
+        ctx.unknown(pfx + '.guard_row_value', A, 'store', why='expected one output buffer carried through the collection loop (found %d)' % len(outs), sp=l2.sp)
+        ctx.unknown(pfx + '.alloc', A, 'alloc', why='output buffer not identified', sp=l2.sp)
+        return l2, None
+    ok_ = outs[0]
+    lh = l2.lh[ok_]
+    rowi = T.sub(ev.t(l2.elem), nd) if l2.elem is not None else l2.var      # element nd + k stored at row k, or element k at row k
+    exps = [T.app('upd', lh, T.app('row_mut', r_), v) for r_ in (rowi, l2.var) for v in (T.app('from_shape', T.app('len', res2), res2), res2)]
+    row_is_k = rowi is l2.var or ev.t(l2.elem) is l2.var
+    ctx.check(pfx + '.guard_row_value', A, 'store', any(l2.next[ok_] is e for e in exps) and row_is_k, expected='collection iteration k stores the state returned by its step at row k (unconditionally)',
+              found=show(l2.next[ok_])[:300], sp=l2.sp, why='row r holds the state after n_discard + r + 1 transitions')
+    dimt = dim_terms or [T.app('len', T.app('core::MarkovChain::current_state', chain0))]
+    ctx.eq(pfx + '.alloc', A, 'alloc', l2.init[ok_], T.app('zeros', T.tup(nc, dimt[0])), sp=sp, why='output has n_collect rows of the state dimension')
+    return l2, ok_
 
 
 def run(ctx):
